@@ -420,6 +420,19 @@ def run(chk, S: Session):
         sol = [t for t in T.subterms(chol) if t.op == "call" and t.args[0] is solve and t is not eA]
         ok = len(rhs) == 1 and len(sol) == 1 and sol[0].args[2] is rhs[0] and ok_e and sol[0].args[1] is eA.args[1] and rhs[0].kwargs.get("axis") == -1
         r2.require(ok, f"{fname}.init L = solve(V-U, concatenate(blocks, axis=-1))", "", f"{[T.show(t, 2) for t in sol]}", where)
+        # orientation of the triangularisation: the wide factor L (n x (q+1) m) has the Gramian L L^T; qr_r(L^T)^T is the lower factor with the same
+        # Gram matrix, qr_r(L^T) (untransposed) or qr_r(L) are not.  The result is written into the leading block of a zero matrix of A's shape.
+        if len(sol) == 1:
+            okq = False
+            det = T.show(chol, 4)
+            st_ = chol
+            if isinstance(st_, T.Term) and st_.op == "at_set" and len(st_.args) == 3:
+                base, where_, val = st_.args
+                okpad = isinstance(base, T.Term) and base.op == "np.zeros_like" and base.args[0] is Aat and isinstance(where_, tuple) and len(where_) == 2
+                okq = okpad and isinstance(val, T.Term) and val.op == "attr" and val.args[1] == "T" and isinstance(val.args[0], T.Term) and val.args[0].op == "linalg.qr_r" \
+                    and isinstance(val.args[0].args[0], T.Term) and val.args[0].args[0].op == "attr" and val.args[0].args[0].args[1] == "T" and val.args[0].args[0].args[0] is sol[0]
+                det = f"factor {T.show(val, 4)} written at {T.show(where_, 3)} of {T.show(base, 2)}"
+            r2.require(okq, f"{fname}.init triangularisation", "cholesky = qr_r(L^T)^T (Gram L L^T kept), zero-padded to the shape of A", det, where_of(chol, where))
         if len(rhs) != 1 or not isinstance(rhs[0].args[0], (list, tuple)):
             continue
         blocks = list(rhs[0].args[0])
@@ -450,7 +463,32 @@ def run(chk, S: Session):
     c09_iwp.factory_rules(chk, S)
 
 
+def tail_rules(chk, S, r3):
+    """exp_gram_cholesky.compute: after the doubling loop the factor's columns are multiplied by unit signs (Gram unchanged); nothing else."""
+    from .c09_iwp import _factors, _idx_kind, _is_unit_sign
+
+    it = S.interp()
+    pl = it.instantiate(it.class_value(GRAM + ".PadeLegendre"), [], dict(q=A("q"), eta_fp64=A("eta64"), eta_fp32=A("eta32"), init=A("pl_init")), "<harness>")
+    compute = it.call(it.function_value(f"{GRAM}.exp_gram_cholesky"), [], {"pade_legendre": pl, "solve": A("solve")}, "<harness>")
+    out = it.call(compute, [A("A"), A("B")], {}, "<harness>")
+    S.absorb(it)
+    ws = events(it, "while")
+    if not (isinstance(out, (tuple, list)) and len(out) == 2 and len(ws) == 1):
+        r3.unknown("exp_gram_cholesky.compute tail", f"returns {T.show(out, 2)}; {len(ws)} while-loops", GRAM)
+        return
+    eA, U = out
+    fin = ws[0]["final"]
+    fin_eA, fin_U = (fin[1][0], fin[1][1]) if isinstance(fin, (tuple, list)) and len(fin) == 2 and isinstance(fin[1], (tuple, list)) and len(fin[1]) == 2 else (None, None)
+    r3.require(eA is fin_eA and fin_eA is not None, "exp_gram_cholesky.compute returns the doubled exponential", "eA of the doubling loop", f"{T.show(eA, 3)}", GRAM)
+    fs = _factors(U)
+    sc = [x for x in fs if isinstance(x, T.Term) and x.op == "getitem" and _idx_kind(x.args[1]) in ("rows", "cols")]
+    ok = len(fs) == 2 and len(sc) == 1 and any(x is fin_U for x in fs) and _idx_kind(sc[0].args[1]) == "cols" and _is_unit_sign(sc[0].args[0]) is True
+    r3.require(ok, "exp_gram_cholesky.compute sign normalisation", "U * signs[None, :]: columns scaled by unit signs, Gram matrix unchanged",
+               f"returned factor {T.show(U, 5)}: only a column scaling by a vector of +-1 keeps U U^T", where_of(U, GRAM))
+
+
 def scaling_rules(chk, S, r3):
+    tail_rules(chk, S, r3)
     it = S.interp()
     f = it.function_value(f"{GRAM}._exp_gram_cholesky_init")
     Aat, Bat = A("A"), A("B")
